@@ -324,5 +324,5 @@ PROPERTIES = {
             "only if it is a prefix of the base indentation or nothing remains after stripping it; a mismatch returns None; (d) everything appended is the literal's own "
             "lines, the configured newline or the two indent strings; (e) the interior-line terminator set {CR, LF} agrees with the lexer. "
             "(f) the re-indenter writes with the same ReconstructionSettings value the reconstructor emits with (one StringFormatter, built from the wrapper's own settings); (d) also closes the set of operations that take the literal under construction mutably. "
-            "Not decided: that each pushed line is intact and in order (loop invariant over strings).", []),
+            "Not decided: that each pushed line is intact and in order (loop invariant over strings). Added in round 7: (g) the hard-break table and `no answer before the invariant` (shared with C02.a/b); (e) includes `one line splitter`.", []),
 }
